@@ -36,6 +36,7 @@ def handle (line : String) : String :=
     | "tlsch" :: rest => TlsInfo.driverLine rest obs
     | "snie" :: rest => Sni.e2eLine rest obs
     | "autocmp" :: rest => Sniff.autocmpLine rest obs
+    | "tlsd" :: rest => TlsPool.defaultLine rest obs
     | "wire" :: rest => Wire.driverLine rest obs
     | "st" :: rest => Streams.driverLine rest obs
     | "pool" :: rest => Pool.driverLine rest obs
